@@ -126,6 +126,8 @@ def gen_knobs(rng, prop, profile):
         "tmp_other_device": rng.random() < 0.5,  # is the system temp directory on another file system?
         "tilde_path": rng.random() < 0.06,
         "ret_style": wchoice(rng, [(75, "true"), (25, "none")]),
+        "http_range": rng.random() < 0.5,  # does the simulated http server honour Range requests?
+        "err_type": wchoice(rng, [(45, "io"), (15, "conn"), (12, "timeout"), (10, "runtime"), (8, "value"), (10, "os")]),
         # POSIX TZ strings need no tz database: XXX+7 = seven hours west of UTC, XXX-5:30 = India
         "tz": wchoice(rng, [(60, "UTC"), (14, "XXX+7"), (13, "XXX-2"), (13, "XXX-5:30")]),
         "cache_dir": wchoice(rng, [(70, "cache"), (6, "products[v2]/cache"), (5, "my cache dir"), (5, "c*che?"),
@@ -186,6 +188,8 @@ def gen_ops(rng, prop, knobs, profile):
                 op["shape"] = rng.choice(["tuple", "generator"])
         elif kind in ("REMOVE", "TOUCH", "USER_READ"):
             op["key"] = rng.randrange(K)
+            if kind == "REMOVE" and rng.random() < 0.4:
+                op["shape"] = rng.choice(["list", "generator"])
         elif kind == "AGE":
             op["key"] = rng.randrange(K)
             op["delta"] = rng.choice([-1, -10**6, -10**9, -3600 * 10**9, -86400 * 10**9 * 3, 10**9, 3600 * 10**9])
@@ -241,7 +245,7 @@ def fault_kinds_for(kd, parallel=True):
             # Ctrl-C reaches the main thread only: meaningful when the download runs there
             kinds += ["INTERRUPT_MID"]
     elif kd["scheme"] == "https":
-        kinds += ["HTTP_404", "HTTP_5XX", "CONN_ERR", "TIMEOUT"]
+        kinds += ["HTTP_404", "HTTP_5XX", "CONN_ERR", "TIMEOUT", "HTTP_DROP_MID"]
     kinds += ["EIO", "ENOSPC", "SHORT_WRITE", "EMFILE", "RENAME_EIO"]
     if kd["pp"]:
         kinds += ["PP_ERR_BEFORE", "PP_ERR_MID", "PP_ERR_AFTER"]
@@ -295,19 +299,32 @@ def gen_faults(rng, knobs, ops):
             k = rng.choice(pool)
             faults.append(make_fault(rng, op["id"], rng.choice(fault_kinds_for(keys[k], knobs.get("parallel", True))), k))
         if rng.random() < 0.7:
-            extra_ops.append((gi, {"op": "GET", "keys": list(op["keys"]), "dt": rng.choice([0, 1000, 10**9])}))
+            retry = {"op": "GET", "keys": list(op["keys"]), "dt": rng.choice([0, 1000, 10**9])}
+            extra_ops.append((gi, retry))
+            if rng.random() < 0.3 and len(op["keys"]) >= 2:
+                # the retry meets a fault of its own, on another key of the request (e.g. a sibling that the
+                # failed request had already completed turns out to be gone now)
+                k2 = rng.choice([x for x in op["keys"] if x != k] or op["keys"])
+                retry["_fault"] = (rng.choice(["NOTFOUND"] + fault_kinds_for(keys[k2], knobs.get("parallel", True))), k2)
     # retries directly after the faulted request
     nid = max([o["id"] for o in ops if isinstance(o["id"], int)] + [0]) + 1
     for gi, e in sorted(extra_ops, key=lambda t: -t[0]):
         e["id"] = nid
         nid += 1
+        if "_fault" in e:
+            kind2, k2 = e.pop("_fault")
+            if kind2 == "NOTFOUND" and keys[k2]["scheme"] == "https":
+                kind2 = "HTTP_404"
+            elif kind2 == "NOTFOUND" and keys[k2]["scheme"] == "file":
+                kind2 = "EIO"
+            faults.append(make_fault(rng, e["id"], kind2, k2))
         ops.insert(gi + 1, e)
     return faults
 
 
 def make_fault(rng, op_id, kind, key):
     f = {"op": op_id, "kind": kind, "key": key}
-    if kind in ("ERR_MID", "RET_FALSE_MID", "INTERRUPT_MID", "NOTFOUND_MID"):
+    if kind in ("ERR_MID", "RET_FALSE_MID", "INTERRUPT_MID", "NOTFOUND_MID", "HTTP_DROP_MID"):
         f["k"] = rng.choice([0, 1, 1, 2, 5])
     if kind in ("EIO", "ENOSPC", "SHORT_WRITE"):
         f["nth"] = rng.choice([0, 0, 1, 2])
